@@ -581,6 +581,8 @@ theorem parsePi_cf (s : Stream) (st : Nat) (hc : st ≤ s.pos) :
     rintro ⟨s2, target⟩ _
     simp only
     apply cf_bind_lift _ _ _ _ (fun _ => True) (fun _ _ => trivial)
+    intro s3 _
+    apply cf_bind_lift _ _ _ _ (fun _ => True) (fun _ _ => trivial)
     rintro ⟨s4, content⟩ _
     simp only
     apply cf_bind_lift _ _ _ _ (fun _ => True) (fun _ _ => trivial)
